@@ -33,27 +33,29 @@ type LoopSpec struct {
 }
 
 type Contract struct {
-	Kind      string // func, extern, iface, lemma
-	Name      string // SSA-style name: getVarInt, (*Writer).add, os.Remove, record.key
-	Params    []string
-	Results   []string
-	Props     []string
-	Requires  []*Clause
-	Ensures   []*Clause
-	Modifies  []*Clause // nil = unspecified
-	HasMod    bool
-	Pure      bool // "pure": writes nothing
-	NoPanic   bool
-	NoPanicP  []string
-	Decreases *Clause
-	Loops     map[int]*LoopSpec
-	Uses      []string // axioms/lemmas to include
-	Trusted   bool     // contract assumed, body not verified (listed)
-	Inline    bool     // always inline, never modular
-	Frame     bool     // check stores against modifies (frame obligations)
-	FrameP    []string
-	Line      int
-	File      string
+	Kind        string // func, extern, iface, lemma
+	Name        string // SSA-style name: getVarInt, (*Writer).add, os.Remove, record.key
+	Params      []string
+	Results     []string
+	Props       []string
+	Requires    []*Clause
+	Ensures     []*Clause
+	Modifies    []*Clause // nil = unspecified
+	HasMod      bool
+	Pure        bool // "pure": writes nothing
+	NoPanic     bool
+	NoPanicP    []string
+	GhostParams []string                    // extern/func contracts: extra ghost parameters (witnesses) named in requires/ensures
+	CallGhost   map[string]map[string]SExpr // "callee#ordinal" -> ghost param -> expression (in the caller's contract)
+	Decreases   *Clause
+	Loops       map[int]*LoopSpec
+	Uses        []string // axioms/lemmas to include
+	Trusted     bool     // contract assumed, body not verified (listed)
+	Inline      bool     // always inline, never modular
+	Frame       bool     // check stores against modifies (frame obligations)
+	FrameP      []string
+	Line        int
+	File        string
 }
 
 type SpecFunc struct {
@@ -191,7 +193,7 @@ func (cs *ContractSet) loadFile(path string) error {
 
 var keywords = map[string]bool{"callback": true, "func": true, "extern": true, "iface": true, "lemmafn": true, "spec": true, "axiom": true, "lemma": true, "ghost": true,
 	"requires": true, "ensures": true, "modifies": true, "nopanic": true, "loop": true, "props": true, "results": true,
-	"params": true, "use": true, "decreases": true, "trusted": true, "pure": true, "inline": true, "frame": true}
+	"params": true, "use": true, "decreases": true, "ghostparams": true, "callsite": true, "trusted": true, "pure": true, "inline": true, "frame": true}
 
 func startsWithKeyword(s string) bool {
 	w, _ := splitWord(s)
@@ -289,6 +291,35 @@ func (cs *ContractSet) addClause(c *Contract, w, rest string, line int, file str
 		return &Clause{Kind: kind, Label: label, View: view, Props: props, Text: rest, Expr: e, Line: line, File: file}, nil
 	}
 	switch w {
+	case "ghostparams":
+		c.GhostParams = strings.Fields(strings.ReplaceAll(rest, ",", " "))
+	case "callsite":
+		// callsite CALLEE ORDINAL ghost a = e1; b = e2
+		parts := strings.SplitN(rest, " ghost ", 2)
+		if len(parts) != 2 {
+			return fmt.Errorf("callsite: want 'callsite CALLEE N ghost a = e; b = e'")
+		}
+		hd := strings.Fields(parts[0])
+		if len(hd) != 2 {
+			return fmt.Errorf("callsite: want callee and ordinal")
+		}
+		key := hd[0] + "#" + hd[1]
+		if c.CallGhost == nil {
+			c.CallGhost = map[string]map[string]SExpr{}
+		}
+		m := map[string]SExpr{}
+		for _, as := range strings.Split(parts[1], ";") {
+			kv := strings.SplitN(as, "=", 2)
+			if len(kv) != 2 {
+				return fmt.Errorf("callsite: bad assignment %q", as)
+			}
+			e, err := parseSpec(kv[1])
+			if err != nil {
+				return err
+			}
+			m[strings.TrimSpace(kv[0])] = e
+		}
+		c.CallGhost[key] = m
 	case "props":
 		c.Props = strings.Fields(strings.ReplaceAll(rest, ",", " "))
 	case "results":
